@@ -123,7 +123,20 @@ func (ex *Exec) modArrayNames(fc *FuncContract, c *ssa.CallCommon, e CExpr) (map
 			}
 			return out, true
 		}
+		if n.Fn == "sends" {
+			out["ChanSends"] = ArraySort(SRef, SInt)
+			return out, true
+		}
+		if n.Fn == "every" {
+			if an, as, ok := ex.everyArray(n); ok {
+				out[an] = as
+				return out, true
+			}
+		}
 		if n.Fn == "lockstate" {
+			if g, ok := w.CS.Ghosts["lockgen"]; ok && len(g.Params) == 1 {
+				out["G_lockgen"] = ArraySort(g.Params[0], g.Result)
+			}
 			out["LockState"] = ArraySort(SRef, SInt)
 			return out, true
 		}
@@ -533,6 +546,7 @@ func (ex *Exec) applyCall(st *State, fr *Frame, c *ssa.CallCommon, fc *FuncContr
 	if fc.HavocAll {
 		w.heapHavocAll(st.heap)
 	}
+	ex.implLockgen = fc.Kind != "extern"
 	for _, m := range fc.Modifies {
 		for _, e := range m.Exprs {
 			if err := ex.havocLoc(st, env, old, e); err != nil {
@@ -643,6 +657,7 @@ func (ex *Exec) havocLoc(st *State, env *CEnv, old *Heap, e CExpr) error {
 				off, ln := SOff(v.T), SLen(v.T)
 				st.assume(Eq(BLen(c), ln))
 				nb := App(SBytes, "bupd", oldB, off, c)
+				ex.recLoc(frameLoc{Array: "BM", Key: SBase(v.T), Range: true, Off: off, Len: ln})
 				w.heapSet(st.heap, "BM", Store(bm, SBase(v.T), nb))
 				return nil
 			}
@@ -650,6 +665,7 @@ func (ex *Exec) havocLoc(st *State, env *CEnv, old *Heap, e CExpr) error {
 				key := ex.bmKey(v.T)
 				nb := w.Fresh("bytes!havoc", SBytes)
 				st.assume(Eq(BLen(nb), BLen(Select(bm, key))))
+				ex.recLoc(frameLoc{Array: "BM", Key: key})
 				w.heapSet(st.heap, "BM", Store(bm, key, nb))
 				return nil
 			}
@@ -671,6 +687,7 @@ func (ex *Exec) havocLoc(st *State, env *CEnv, old *Heap, e CExpr) error {
 			// frame: indices outside [off, off+len) keep their values
 			st.assume(Term{fmt.Sprintf("(forall ((i!q Int)) (! (=> (or (< i!q %s) (>= i!q (+ %s %s))) (= (select %s i!q) (select %s i!q))) :pattern ((select %s i!q))))",
 				SOff(v.T).S, SOff(v.T).S, SLen(v.T).S, na.S, oldA.S, na.S), SBool})
+			ex.recLoc(frameLoc{Array: an, Key: SBase(v.T), Range: true, Off: SOff(v.T), Len: SLen(v.T)})
 			w.heapSet(st.heap, an, Store(arr, SBase(v.T), na))
 			return nil
 		case "lockstate":
@@ -679,7 +696,39 @@ func (ex *Exec) havocLoc(st *State, env *CEnv, old *Heap, e CExpr) error {
 				return err
 			}
 			ls := w.heapGet(st.heap, "LockState", ArraySort(SRef, SInt))
+			ex.recLoc(frameLoc{Array: "LockState", Key: v.T})
 			w.heapSet(st.heap, "LockState", Store(ls, v.T, w.Fresh("lockstate", SInt)))
+			// a function that may lock m may also open a new critical section of m
+			if g, ok := w.CS.Ghosts["lockgen"]; ok && len(g.Params) == 1 && ex.implLockgen {
+				as := ArraySort(g.Params[0], g.Result)
+				ex.recLoc(frameLoc{Array: "G_lockgen", Key: v.T})
+				w.heapSet(st.heap, "G_lockgen", Store(w.heapGet(st.heap, "G_lockgen", as), v.T, w.Fresh("ghost!lockgen", g.Result)))
+			}
+			return nil
+		case "every": // every("pkg/path.Type.field") / every(ghost): that field of every object / the ghost at every key
+			an, as, ok := ex.everyArray(n)
+			if !ok {
+				return cerr("every(): unknown field or ghost")
+			}
+			ex.recLoc(frameLoc{Array: an, Whole: true})
+			arr := w.heapGet(st.heap, an, as)
+			na := w.Fresh("every!havoc", as)
+			if k, _, isArr := as.IsArray(); isArr && k == SRef {
+				// objects allocated later than the call cannot have been touched
+				_ = arr
+			}
+			w.heapSet(st.heap, an, na)
+			return nil
+		case "sends": // sends(ch): the number of values sent on ch
+			v, err := oenv.Eval(n.Args[0])
+			if err != nil {
+				return err
+			}
+			cs := w.heapGet(st.heap, "ChanSends", ArraySort(SRef, SInt))
+			ex.recLoc(frameLoc{Array: "ChanSends", Key: v.T})
+			nv := w.Fresh("sends", SInt)
+			st.assume(Ge(nv, Select(cs, v.T)))
+			w.heapSet(st.heap, "ChanSends", Store(cs, v.T, nv))
 			return nil
 		case "deref":
 			v, err := oenv.Eval(n.Args[0])
@@ -708,6 +757,8 @@ func (ex *Exec) havocLoc(st *State, env *CEnv, old *Heap, e CExpr) error {
 			pn, ps, vn, vs := w.MapArrays(mt)
 			_, pin, _ := ps.IsArray()
 			_, vin, _ := vs.IsArray()
+			ex.recLoc(frameLoc{Array: pn, Key: v.T})
+			ex.recLoc(frameLoc{Array: vn, Key: v.T})
 			w.heapSet(st.heap, pn, Store(w.heapGet(st.heap, pn, ps), v.T, w.Fresh("map!havoc", pin)))
 			w.heapSet(st.heap, vn, Store(w.heapGet(st.heap, vn, vs), v.T, w.Fresh("map!havoc", vin)))
 			return nil
@@ -720,6 +771,17 @@ func (ex *Exec) havocLoc(st *State, env *CEnv, old *Heap, e CExpr) error {
 				}
 				as := ArraySort(g.Params[0], g.Result)
 				arr := w.heapGet(st.heap, "G_"+n.Fn, as)
+				if n.Fn == "cancelled" && g.Result == SBool && g.Params[0] == SRef {
+					// cancellation is environment state: a callee that may observe (or wait for) the
+					// cancellation of one context lets time pass, during which any context may be
+					// cancelled, and none is ever un-cancelled
+					nc := w.Fresh("cancelled!call", as)
+					st.assume(Term{fmt.Sprintf("(forall ((r!q Ref)) (! (=> (select %s r!q) (select %s r!q)) :pattern ((select %s r!q))))", arr.S, nc.S, nc.S), SBool})
+					ex.recLoc(frameLoc{Array: "G_cancelled", Whole: true})
+					w.heapSet(st.heap, "G_cancelled", nc)
+					return nil
+				}
+				ex.recLoc(frameLoc{Array: "G_" + n.Fn, Key: oenv.coerceTo(v, g.Params[0])})
 				w.heapSet(st.heap, "G_"+n.Fn, Store(arr, oenv.coerceTo(v, g.Params[0]), w.Fresh("ghost!"+n.Fn, g.Result)))
 				return nil
 			}
@@ -727,6 +789,7 @@ func (ex *Exec) havocLoc(st *State, env *CEnv, old *Heap, e CExpr) error {
 		return cerr("unsupported modifies target %s(...)", n.Fn)
 	case *CIdent:
 		if g, ok := w.CS.Ghosts[n.Name]; ok && len(g.Params) == 0 {
+			ex.recLoc(frameLoc{Array: "G_" + n.Name, Whole: true})
 			w.heapSet(st.heap, "G_"+n.Name, w.Fresh("ghost!"+n.Name, g.Result))
 			return nil
 		}
@@ -916,7 +979,7 @@ func (ex *Exec) appendSlices(st *State, s, t Term, sT, tT types.Type) Term {
 			an, as := w.FieldArray(elem, i)
 			old := w.heapGet(st.heap, an, as)
 			na := w.Fresh(an+"!append", as)
-			st.assume(Term{fmt.Sprintf("(forall ((x!q Ref)) (! (=> (not (= (addrbase x!q) %s)) (= (select %s x!q) (select %s x!q))) :pattern ((select %s x!q))))", r.S, na.S, old.S, na.S), SBool})
+			st.assume(Term{fmt.Sprintf("(forall ((x!q Ref)) (! (=> (not (and (= (addrtag x!q) (- 1)) (= (addrbase x!q) %s))) (= (select %s x!q) (select %s x!q))) :pattern ((select %s x!q))))", r.S, na.S, old.S, na.S), SBool})
 			st.assume(Term{fmt.Sprintf("(forall ((i!q Int)) (! (=> (and (<= 0 i!q) (< i!q %s)) (= (select %s (elemref %s i!q)) (select %s (elemref %s (eidx %s i!q))))) :pattern ((select %s (elemref %s i!q)))))",
 				SLen(s).S, na.S, r.S, old.S, SBase(s).S, SOff(s).S, na.S, r.S), SBool})
 			st.assume(Term{fmt.Sprintf("(forall ((i!q Int)) (! (=> (and (<= 0 i!q) (< i!q %s)) (= (select %s (elemref %s (+ %s i!q))) (select %s (elemref %s (eidx %s i!q))))) :pattern ((select %s (elemref %s (eidx %s i!q))))))",
@@ -1006,7 +1069,6 @@ func (ex *Exec) makeSliceHook(st *State, x *ssa.MakeSlice, ln, cp Term) {
 }
 func (ex *Exec) goHook(st *State, fr *Frame, x *ssa.Go)               {}
 func (ex *Exec) closeHook(st *State, ch Term, pos token.Pos)            {}
-func (ex *Exec) checkFrame(st *State, pos token.Pos)                   {}
 
 func (ex *Exec) funcTypeContract(c *ssa.CallCommon) (*FuncContract, bool) {
 	// named function type with an extern contract "functype <pkgpath>.<Name>"
